@@ -594,7 +594,8 @@ J_parse_any(e) ==
      R(<<outcome, B(o.strict), B(o.exact), B(r.ok), B(rd.ok), B(HasForeign(t)), e.a.origin, "exc", excName,
          "slash", B(Has(t, cSlash)), "nonascii", B(~ascii), "wide", B(rd.ok /\ rd.maxdigits >= 10),
          "longdigits", B(\E i \in 1..(Len(t) - 9) : AllDigits(Sub(t, i, i + 9))),
-         "durfrac", B(rd.ok /\ rd.hasfrac), "trailing-newline", B(Len(t) > 0 /\ t[Len(t)] = 10)>>,
+         "durfrac", B(rd.ok /\ rd.hasfrac), "trailing-newline", B(Len(t) > 0 /\ t[Len(t)] = 10),
+         "ends-colon", B((Len(t) > 0 /\ t[Len(t)] = cColon) \/ (\E i \in 1..(Len(t) - 1) : t[i] = cColon /\ t[i + 1] \in {cColon, cDot, cComma}))>>,
        V("total", IF p.top.k = "exc" THEN "ValueError" \in ToSet(p.top.names) ELSE PendulumValue(p.top), "a pendulum value or ValueError")
        \o V("low-level-total", (p.py.k = "exc" => "ValueError" \in ToSet(p.py.names)) /\ (p.rs.k = "exc" => "ValueError" \in ToSet(p.rs.names)),
             "ValueError")
@@ -718,6 +719,10 @@ J_native_cmp(e) ==
         \o (IF IsNaive(a) THEN V("mixed-same-as-native", p.pn = p.nn, p.nn)
             ELSE V("mixed-ordering-of-instants", SubSeq(p.pn, 1, 4) = SubSeq(want, 1, 4), want))
         \o (IF ambiguous THEN <<>> ELSE V("subtraction", p.sub = I3Diff(ia, ib), I3Diff(ia, ib)))
+        \* pendulum - native / native - pendulum: two different tzinfo objects, hence the true elapsed time
+        \o (IF IsNaive(a) THEN <<>>
+            ELSE V("pendulum-minus-native", p.psubn = I3Diff(ia, ib), I3Diff(ia, ib))
+                 \o V("native-minus-pendulum", p.nsubp = I3Diff(ia, ib), I3Diff(ia, ib)))
         \* native subtraction of two values sharing a tzinfo is a wall-clock difference: the twin clause applies
         \* where that and the elapsed time (C05) coincide
         \o (IF IsNaive(a) \/ ZRef(a.z) # ZRef(b.z) \/ OffOf(a) = OffOf(b)
